@@ -140,7 +140,11 @@ CLAIMED = {
         text='Partial. The Polygon2D clean-up code is translated (the remove_colinear scan with its skip / first_skip / seam patch '
              'included) and run bit-for-bit against the implementation on decorated loops. Proved for every input: '
              'remove_duplicate_vertices is exactly the filter "not within tolerance of the cyclic predecessor", its result is a '
-             'sub-list (original vertices, original order); every vertex returned by remove_colinear_vertices is an input vertex. '
+             'sub-list (original vertices, original order); every vertex returned by remove_colinear_vertices is an input vertex; '
+             'Polyline2D.remove_colinear_vertices (generated; index loop with its skip counter, run against the implementation on '
+             'decorated chains) keeps the two end points and in between is exactly the scan that keeps a vertex iff the triangle '
+             '(last kept vertex, vertex, next original vertex) has twice-area >= tolerance - so it returns original vertices only, and '
+             'all of them when each is a corner. '
              'That all exactly-collinear / duplicated points are removed, all genuine corners kept for every rotation of the list and '
              'both orientations, area/orientation preserved and a second pass changes nothing (as a cyclic sequence) is searched '
              'on Polygon2D, Face3D and Polyline2D/3D.',
